@@ -20,7 +20,8 @@ def sh(cmd, cwd=None, timeout=1800):
 
 def main():
     pid, mk = sys.argv[1], sys.argv[2]
-    src = "/tmp/seed/%s/out/%s" % (pid, mk)
+    outdir = sys.argv[3] if len(sys.argv) > 3 else "out"
+    src = "/tmp/seed/%s/%s/%s" % (pid, outdir, mk)
     wt = "/tmp/seed/%s/repo" % pid
     meta = json.load(open(os.path.join(src, "meta.json")))
     ran = []
